@@ -726,6 +726,17 @@ W.contract(Contract('ENFA.get_difference', [('self', ENFA), ('other', ENFA)], re
                                     ForAll([p], Implies(e.other.Q[p], e.get('$old.other').Q[p])),
                                     ForAll([a], e.other.Sig[a] == Or(And(e.get('$old.other').Sig[a], e.other.Sig[a]), done[a])))}))
 
+# ------------------------------------------------------------------ operator forms: one-line delegations with the postcondition (and ghosts) of the method they call
+def delegate(alias, to, **kw):
+    c = W.contracts[to]
+    m = to.split('.')[-1]
+    W.contract(Contract(alias, c.params, ret=c.ret, fresh_result=c.fresh_result, requires=c.requires, ensures=c.ensures, ghosts=dict(c.ghosts),
+                        ghost_witness=(lambda o, e, m=m, c=c: {k: e.get(f'$ghost.{m}.{k}') for k in c.ghosts}) if c.ghosts else None, **kw))
+delegate('ENFA.__neg__', 'ENFA.get_complement'); delegate('ENFA.__and__', 'ENFA.get_intersection'); delegate('ENFA.__sub__', 'ENFA.get_difference')
+delegate('ENFA.__invert__', 'ENFA.reverse'); delegate('ENFA.__copy__', 'ENFA.copy')
+W.contract(Contract('ENFA.__bool__', [('self', ENFA)], ret=TBool, requires=lambda o: WF(o.self),          # bool(automaton): some word is accepted
+    ensures=lambda o, r, n: r.term == Exists([p, f_], And(o.self.I[p], o.self.F[f_], ReachA(o.self.T.term, p, f_)))))
+
 # ------------------------------------------------------------------ binding of contracts to the repository source
 W.ground_sorts = (St.sort(), Sy.sort())
 W.special = {'EPS': EPS, 'NONE_ST': NONE_ST, 'TRASH': TRASH}
@@ -748,6 +759,7 @@ TARGETS.update({'NFA.accepts': (_PN, 'NondeterministicFiniteAutomaton.accepts'),
                 'DFA.accepts': (_PD, 'DeterministicFiniteAutomaton.accepts'), 'DFA.is_deterministic': (_PD, 'DeterministicFiniteAutomaton.is_deterministic')})
 TARGETS.update({f'ENFA.{m}': (_PF, f'FiniteAutomaton.{m}') for m in ['_get_next_states_from', '_get_reachable_states', '_get_states_leading_to_final']})
 TARGETS.update({'ENFA.to_fst': (_PF, 'FiniteAutomaton.to_fst')})
+TARGETS.update({f'ENFA.{m}': (_P, f'EpsilonNFA.{m}') for m in ['__neg__', '__and__', '__sub__', '__invert__', '__copy__', '__bool__']})
 TARGETS.update({'DFA.copy': (_PD, 'DeterministicFiniteAutomaton.copy'), 'DFA.to_deterministic': (_PD, 'DeterministicFiniteAutomaton.to_deterministic'),
                 'NFA.to_deterministic': (_PN, 'NondeterministicFiniteAutomaton.to_deterministic')})
 
